@@ -23,10 +23,10 @@ const shimImport = `"github.com/onflow/crypto/zzverif/vsched"`
 var targets = map[string][]string{
 	"bls_thresholdsign.go": {"recv:blsThresholdSignature"},
 	"hash/kmac.go":         {"ComputeHash", "SumHash", "Reset", "Size"},
-	"bls.go":               {"Sign", "Verify", "PublicKey", "computePublicKey", "Encode", "checkBLSHasher"},
+	"bls.go":               {"Sign", "Verify", "PublicKey", "computePublicKey", "Encode", "checkBLSHasher", "opt:generatePrivateKey", "opt:decodePrivateKey", "opt:decodePublicKey", "opt:decodePublicKeyCompressed"},
 	"bls_multisig.go":      {"BLSGeneratePOP", "BLSVerifyPOP", "AggregateBLSPublicKeys", "VerifyBLSSignatureOneMessage", "VerifyBLSSignatureManyMessages", "BatchVerifyBLSSignaturesOneMessage"},
 	"spock.go":             {"SPOCKProve", "SPOCKVerifyAgainstData", "SPOCKVerify"},
-	"ecdsa.go":             {"Sign", "Verify", "signHash", "verifyHash", "PublicKey"},
+	"ecdsa.go":             {"Sign", "Verify", "signHash", "verifyHash", "PublicKey", "opt:generatePrivateKey", "opt:decodePrivateKey", "opt:rawDecodePrivateKey", "opt:decodePublicKey", "opt:rawDecodePublicKey", "opt:decodePublicKeyCompressed"},
 }
 
 func die(f string, a ...any) {
@@ -60,11 +60,16 @@ func instrument(repo, rel string, names []string) (string, int) {
 		die("parse %s: %v", rel, err)
 	}
 	want := map[string]bool{}
+	optional := map[string]bool{}
 	prefix := ""
 	for _, n := range names {
-		if strings.HasPrefix(n, "recv:") {
+		switch {
+		case strings.HasPrefix(n, "recv:"):
 			prefix = strings.TrimPrefix(n, "recv:")
-		} else {
+		case strings.HasPrefix(n, "opt:"):
+			// instrumented when present; a tree without it is not an error (not an anchor)
+			optional[strings.TrimPrefix(n, "opt:")] = true
+		default:
 			want[n] = false
 		}
 	}
@@ -85,6 +90,9 @@ func instrument(repo, rel string, names []string) (string, int) {
 			sel = true
 		}
 		if prefix != "" && strings.HasPrefix(recvName(fd), prefix) {
+			sel = true
+		}
+		if optional[fd.Name.Name] {
 			sel = true
 		}
 		if !sel {
